@@ -346,14 +346,15 @@ def replay_dir(pid):
 
 
 def write_replay(pid, sub, case, failure, seed, tier):
-    d = replay_dir(pid)
+    d = os.path.join(env.OUT_ROOT, "replays", pid)
+    os.makedirs(d, exist_ok=True)
     h = case_hash({"sub": sub.name, "case": case})
     path = os.path.join(d, f"{sub.name}-{h}.json")
     doc = {"property": pid, "sub": sub.name, "case": case, "failure": failure,
            "rendered": _jsonable(_try(lambda: sub.render(case), None)), "seed": seed, "tier": tier}
     with open(path, "w", encoding="utf-8") as fh:
         json.dump(doc, fh, indent=1, ensure_ascii=False, default=repr)
-    return os.path.relpath(path, env.VERIF_ROOT)
+    return os.path.relpath(path, env.OUT_ROOT)
 
 
 def _try(fn, default):
@@ -505,7 +506,7 @@ def run_property(mod, tier, seed, only_sub=None, jobs=16):
         "wall_s": round(time.time() - t0, 2),
         "violations": len(violations),
     }
-    edir = os.path.join(env.VERIF_ROOT, "evidence")
+    edir = os.path.join(env.OUT_ROOT, "evidence")
     os.makedirs(edir, exist_ok=True)
     if only_sub is None:
         with open(os.path.join(edir, f"{pid}.json"), "w", encoding="utf-8") as fh:
